@@ -253,6 +253,37 @@ def c082(ctx):
                               "dec returns true without removing the count entry", pt=(b.idx, i))
 
 
+    if g:
+        # the entry is removed exactly when the count is at its last reference: the remove is on the edge `count <= 1` (or `== 1`, `< 2`),
+        # and on the other edge the count goes down by exactly one
+        def last_ref_edge(pt):
+            for x in K.compare_guards(g, pt, user_only=False):
+                c = x["b"]["c"].get("v") if x["b"].get("k") == "const" else None
+                fromget = any(s_["k"] == "call" and re.search(r"OccupiedEntry.*::get(_mut)?$", s_["callee"]) for s_ in P.origins(g, x["a"]))
+                if not fromget or c is None:
+                    continue
+                if (x["op"], c, x["holds"]) in (("Le", 1, True), ("Eq", 1, True), ("Lt", 2, True), ("Gt", 1, False), ("Ge", 2, False), ("Ne", 1, False)):
+                    return "last"
+                if (x["op"], c, x["holds"]) in (("Le", 1, False), ("Lt", 2, False), ("Gt", 1, True), ("Ge", 2, True)):
+                    return "more"
+            return None
+        for pt in P.call_points(g, r"OccupiedEntry.*::remove$"):
+            ctx.check(R, g, "dec-removes-last", last_ref_edge(pt) == "last", "the count entry is removed only when the count is at most 1",
+                      "dec removes the count entry (and reports `unreferenced`) while other versions may still reference the file", pt=pt)
+        subs = [(b.idx, i) for b in g.blocks for i, st in enumerate(b.st) if st["s"] == "=" and st["rv"]["r"] == "bin" and st["rv"]["op"].startswith("Sub")]
+        ctx.floor(R, "dec decrements", len(subs), 1)
+        for pt in subs:
+            rv = g.blocks[pt[0]].st[pt[1]]["rv"]
+            one = rv["b"].get("k") == "const" and rv["b"]["c"].get("v") == 1
+            ctx.check(R, g, "dec-by-one", one and last_ref_edge(pt) == "more", "with more than one reference left the count goes down by exactly one",
+                      "dec does not lower a count above 1 by exactly one", pt=pt)
+    h2 = ctx.fn(R, "lsmtk::reference_counter::ReferenceCounter::inc")
+    if h2:
+        adds = [(b.idx, i) for b in h2.blocks for i, st in enumerate(b.st) if st["s"] == "=" and st["rv"]["r"] == "bin" and st["rv"]["op"].startswith("Add")]
+        ok = len(adds) == 1 and h2.blocks[adds[0][0]].st[adds[0][1]]["rv"]["b"].get("k") == "const" and h2.blocks[adds[0][0]].st[adds[0][1]]["rv"]["b"]["c"].get("v") == 1
+        ctx.check(R, h2, "inc-by-one", ok and P.must_pass(h2, adds) is None, "inc raises the count by exactly one on every path", "inc does not raise the count by exactly one on every path")
+
+
 def c083(ctx):
     R = "C08.3"
     ctx.declare(R, "the verifier unlinks only what a durable intent record names, after verifying the fragment")
